@@ -51,6 +51,10 @@ MarshalGuard(D, h, res) ==
   MarshalTags(D, pk[h], res)
   \cup (IF "none" \notin DOMAIN memo[h].marshal /\ ~SameMarshal(memo[h].marshal, res) THEN {"C18:marshal_not_repeatable"} ELSE {})
   \cup (IF res.panic /\ h \in fromdec /\ pk[h].k = "LIST" THEN {"C09:remarshal_panic"} ELSE {})
+  \* C05: a MarshalSize answer given before this Marshal (same value: the memo is cleared when the packet changes)
+  \cup (IF memo[h].size >= 0 /\ res.ok /\ Len(res.out) <= 262144 /\ memo[h].size # Len(res.out)
+           /\ ~(pk[h].k = "TWCC" /\ ~(pk[h].hdr.c <= 31 /\ TwccConsistent(pk[h])))
+        THEN {"C05:marshalsize_vs_output"} ELSE {})
   \* C02: re-marshalling what was decoded from the library's own output of a well-formed value reproduces the octets
   \* (demanded when the model D itself re-encodes them identically: always so for the strict model)
   \cup (IF memo[h].hassrc /\ ~res.panic /\ RemarshalStable(D, pk[h].k, memo[h].src) /\ (~res.ok \/ res.out # memo[h].src)
